@@ -531,6 +531,7 @@ type FuncContract struct {
 	Results  []string
 	Where    string
 	Note     string
+	Like     string // copy the clauses of another contract (same shape, another instantiation)
 }
 
 type GhostFunc struct {
@@ -576,7 +577,7 @@ type ContractFile struct {
 var clauseKeywords = map[string]bool{
 	"func": true, "requires": true, "ensures": true, "check": true, "defines": true, "assigns": true, "loop": true,
 	"ghost": true, "pred": true, "define": true, "axiom": true, "lemma": true, "inline": true,
-	"invariant": true, "decreases": true, "trusted": true, "pure": true, "note": true, "unroll": true, "ginv": true,
+	"invariant": true, "decreases": true, "trusted": true, "pure": true, "note": true, "unroll": true, "ginv": true, "like": true, "frame": true,
 }
 
 // ParseContractFile reads //@ lines (or all lines if raw is true).
@@ -623,6 +624,7 @@ func ParseContractFile(path, pkg string, raw bool) (*ContractFile, error) {
 		}
 	}
 	cf := &ContractFile{Pkg: pkg}
+	var frames map[string][]AssignItem
 	var cur *FuncContract
 	curLoop := ""
 	for _, c := range chunks {
@@ -674,7 +676,25 @@ func ParseContractFile(path, pkg string, raw bool) (*ContractFile, error) {
 			if cur == nil {
 				return nil, fmt.Errorf("%s: assigns outside func", where)
 			}
-			items, err := parseAssigns(c.text, where)
+			var items []AssignItem
+			var err error
+			for _, part := range splitTop(c.text, ',') {
+				part = strings.TrimSpace(part)
+				if strings.HasPrefix(part, "@") {
+					fr, ok := frames[part[1:]]
+					if !ok {
+						return nil, fmt.Errorf("%s: unknown frame %s", where, part)
+					}
+					items = append(items, fr...)
+					continue
+				}
+				its, e := parseAssigns(part, where)
+				if e != nil {
+					err = e
+					break
+				}
+				items = append(items, its...)
+			}
 			if err != nil {
 				return nil, err
 			}
@@ -704,6 +724,39 @@ func ParseContractFile(path, pkg string, raw bool) (*ContractFile, error) {
 			if cur != nil {
 				cur.Note = c.text
 			}
+		case "frame":
+			// frame NAME := assigns-items   (a named assigns list, used as "assigns @NAME")
+			i := strings.Index(c.text, ":=")
+			if i < 0 {
+				return nil, fmt.Errorf("%s: frame needs 'NAME := items'", where)
+			}
+			var items []AssignItem
+			for _, part := range splitTop(strings.TrimSpace(c.text[i+2:]), ',') {
+				part = strings.TrimSpace(part)
+				if strings.HasPrefix(part, "@") {
+					fr, ok := frames[part[1:]]
+					if !ok {
+						return nil, fmt.Errorf("%s: unknown frame %s", where, part)
+					}
+					items = append(items, fr...)
+					continue
+				}
+				its, err := parseAssigns(part, where)
+				if err != nil {
+					return nil, err
+				}
+				items = append(items, its...)
+			}
+			if frames == nil {
+				frames = map[string][]AssignItem{}
+			}
+			frames[strings.TrimSpace(c.text[:i])] = items
+			cur = nil
+		case "like":
+			if cur == nil {
+				return nil, fmt.Errorf("%s: like outside func", where)
+			}
+			cur.Like = qualifyKey(pkg, strings.TrimSpace(c.text))
 		case "loop":
 			if cur == nil {
 				return nil, fmt.Errorf("%s: loop outside func", where)
